@@ -5,6 +5,7 @@ regenerated from bin/newpolicy.sh on every run and must pass the verified
 checker.  Tie: the real script runs against a local bare git repository with a
 stub compiler; it is killed (SIGKILL) before each of its simple commands, for
 histories of good / bad commits, and two invocations are started at once."""
+import re
 import os, shutil, subprocess, time
 from concurrent.futures import ThreadPoolExecutor
 from vlib import common as C
@@ -135,6 +136,54 @@ git -C netspoc config --local user.email user@example.com
     def dirs(self, home):
         return sorted(d for d in os.listdir(os.path.join(home, 'policies')) if d[0] == 'p' and d[1:].isdigit())
 
+    # ---- observation for the tie of Newpolicy/Live.v: revisions are the commits the script did not make itself ----
+    def base_rev(self, home, gitdir, ref='HEAD'):
+        """the nearest ancestor of ref (ref included) that is not a POLICY commit of the script ('pN'); None if unreadable"""
+        r = self.sh(home, "git --git-dir=%s log --format='%%H %%s' %s 2>/dev/null" % (gitdir, ref))
+        for line in r.stdout.split('\n'):
+            if ' ' in line:
+                h, subj = line.split(' ', 1)
+                if not re.match(r'^p[0-9]+$', subj.strip()):
+                    return h
+        return None
+
+    def is_bad(self, home, h):
+        return 'BAD_SYNTAX' in self.sh(home, 'git --git-dir=$HOME/netspoc.git show %s:topology 2>/dev/null' % h).stdout
+
+    def observe(self, home, revs):
+        """-> dict(head, nxt, failed, curr) with revisions numbered in order of appearance (revs: hash -> (number, bad))"""
+        def num_(h):
+            if h is None:
+                return None
+            if h not in revs:
+                revs[h] = (len(revs) + 1, self.is_bad(home, h))
+            return revs[h][0]
+        pol = os.path.join(home, 'policies')
+        head = num_(self.base_rev(home, os.path.join(home, 'netspoc.git'), 'master'))
+        nd = os.path.join(pol, 'next')
+        if not os.path.isdir(nd):
+            nxt = None
+        elif not os.path.exists(os.path.join(nd, 'src', '.git', 'refs', 'heads', 'master')):
+            nxt = 'empty'
+        else:
+            nxt = num_(self.base_rev(home, os.path.join(nd, 'src', '.git')))
+        cur = self.current(home)
+        curr = num_(self.base_rev(home, os.path.join(pol, cur, 'src', '.git'))) if cur else None
+        return dict(head=head, nxt=nxt, failed=os.path.exists(os.path.join(pol, 'failed')), curr=curr)
+
+    def run_tied(self, home, killat, revs, ties):
+        """run() with the observed states before and after recorded for the comparison with the model; a run during
+        which the head of the repository moved to another revision (a bad commit was reverted: the loop of main) is not compared"""
+        a = self.observe(home, revs)
+        rc, n = self.run(home, killat)
+        b = self.observe(home, revs)
+        # not compared: the head moved (a bad commit was reverted and pushed), or next holds a commit that exists only there
+        # (try_revert committed the revert and was killed before the push) — try_revert and the loop of main are not modelled
+        local_only = isinstance(b['nxt'], int) and b['nxt'] not in (a['head'], a['nxt'])
+        if a['head'] is not None and a['head'] == b['head'] and not local_only and (not killat or n >= killat):
+            ties.append(dict(killed=bool(killat), a=a, b=b))
+        return rc, n
+
 
 def num(p):
     return int(p[1:]) if p else 0
@@ -160,20 +209,21 @@ def fix_after_failed_case(lab, K):
     undisturbed run must make the compiling revision current."""
     home = lab.fresh('faf%d' % K)
     events, probs, live = [], [], []
+    revs, ties = {}, []
     lab.sh(home, 'cd $HOME/netspoc && git pull --quiet && echo "BAD_SYNTAX 1" > topology && git add --all && '
                  'git -c user.email= commit --quiet -m bad && git push --quiet')
-    rc0, _ = lab.run(home, 0)
+    rc0, _ = lab.run_tied(home, 0, revs, ties)
     events.append('commit B1 (does not compile, author without e-mail address: not reverted); undisturbed run (rc=%s)' % rc0)
     probs += safety(lab, home, 'p1', 'after the failed compile')
     fix = lab.commit(home, 'network:n1 = { ip = 10.1.1.0/24; } # FIX')
-    rc, n = lab.run(home, K)
+    rc, n = lab.run_tied(home, K, revs, ties)
     if n < K:
         shutil.rmtree(home, ignore_errors=True)
         return None
     events.append('commit FIX (compiles); newpolicy.sh killed before command %d' % K)
     probs += safety(lab, home, 'p1', 'after the kill')
     cur1 = lab.current(home) or 'p1'
-    rc2, _ = lab.run(home, 0)
+    rc2, _ = lab.run_tied(home, 0, revs, ties)
     events.append('undisturbed run (rc=%s)' % rc2)
     probs += safety(lab, home, cur1, 'after the undisturbed run')
     cur2 = lab.current(home)
@@ -182,15 +232,16 @@ def fix_after_failed_case(lab, K):
     if cur2 is None or not (local == remote or lab.compiled_from(home, cur2) == remote):
         live.append('after the next undisturbed run current (%s) is not the newest compiling revision' % cur2)
     shutil.rmtree(home, ignore_errors=True)
-    return dict(K=K, variant='fix-after-failed', events=events, problems=probs, liveness=live, rc=rc2)
+    return dict(K=K, variant='fix-after-failed', events=events, problems=probs, liveness=live, rc=rc2, ties=ties, bads=sorted(n_ for n_, bad in revs.values() if bad))
 
 
 def kill_case(lab, K, variant):
     home = lab.fresh('%s%d' % (variant, K))
     events, probs = [], []
+    revs, ties = {}, []
     good1 = variant != 'bad'
     c1 = lab.commit(home, 'network:n1 = { ip = 10.1.1.0/24; } # C1' if good1 else 'BAD_SYNTAX 1')
-    rc, n = lab.run(home, K)
+    rc, n = lab.run_tied(home, K, revs, ties)
     if n < K:
         shutil.rmtree(home, ignore_errors=True)
         return None
@@ -204,7 +255,7 @@ def kill_case(lab, K, variant):
     if variant == 'c2':
         newest = lab.commit(home, 'network:n1 = { ip = 10.1.1.0/24; } # C2')
         events.append('commit C2')
-    rc2, _ = lab.run(home, 0)
+    rc2, _ = lab.run_tied(home, 0, revs, ties)
     events.append('undisturbed run (rc=%s)' % rc2)
     probs += safety(lab, home, cur1, 'after the undisturbed run')
     cur2 = lab.current(home)
@@ -225,7 +276,7 @@ def kill_case(lab, K, variant):
     nxt_left = os.path.isdir(os.path.join(home, 'policies', 'next'))
     failed = os.path.exists(os.path.join(home, 'policies', 'failed'))
     shutil.rmtree(home, ignore_errors=True)
-    return dict(K=K, variant=variant, events=events, problems=probs, liveness=live, rc=rc2)
+    return dict(K=K, variant=variant, events=events, problems=probs, liveness=live, rc=rc2, ties=ties, bads=sorted(n_ for n_, bad in revs.values() if bad))
 
 
 def concurrent_case(lab, i):
@@ -344,7 +395,27 @@ def main(ctx):
             for p in r['liveness']:
                 failing.append(dict(what='kill before command %d, no further commit: %s' % (r['K'], p), replay=dict(rep, problem=p),
                                     finding='F-C19-1' if r['variant'] == 'c1' else None, key='live'))
-        cov = dict(evaluations=len(res), distinct_nontrivial=len(set((r['K'], r['variant']) for r in res)),
+        # tie of Newpolicy/Live.v (next, marker, uptodate): every observed run against the model, evaluated in Coq
+        def c_obs(o):
+            on = lambda x: 'None' if x is None else '(Some %d)' % x
+            nx = 'None' if o['nxt'] is None else ('(Some None)' if o['nxt'] == 'empty' else '(Some (Some %d))' % o['nxt'])
+            return '{| o_head := %d; o_nxt := %s; o_failed := %s; o_curr := %s |}' % (o['head'], nx, C.cbool(o['failed']), on(o['curr']))
+        titems, tmeta = [], []
+        for r in res:
+            for t in r.get('ties', []):
+                titems.append('(%s, %s, %s, %s)' % (C.clist([str(x) for x in r['bads']]), C.cbool(t['killed']), c_obs(t['a']), c_obs(t['b'])))
+                tmeta.append((r, t))
+        ntie = len(titems)
+        if titems:
+            text = ('From Coq Require Import List.\nFrom NA Require Import Newpolicy.Model Newpolicy.Live Newpolicy.LiveCheck Gen.NewpolicyScript.\nImport ListNotations.\n'
+                    'Definition V := Eval vm_compute in tie_verdicts newpolicy_script %s.\nPrint V.\n' % C.clist(titems))
+            tv = C.parse_verdict_list(ctx.coq_eval('c19_live', text), len(titems))
+            for (r, t), bad in zip(tmeta, tv):
+                if bad:
+                    breaks.append(dict(correspondence='Newpolicy/Live.v (next, marker failed, uptodate) vs bin/newpolicy.sh: the state observed after a %s run is not a state of the model'
+                                                      % ('killed' if t['killed'] else 'undisturbed'),
+                                       case=dict(kill_before_command=r['K'], variant=r['variant'], history=r['events'], before=t['a'], after=t['b'], not_compiling_revisions=r['bads'])))
+        cov = dict(evaluations=len(res), distinct_nontrivial=len(set((r['K'], r['variant']) for r in res)), runs_compared_with_live_model=ntie,
                    rule='one run of newpolicy.sh has %d simple commands; kill before each x {no further commit, a further good commit, '
                         'a commit that does not compile (sampled in quick)} followed by an undisturbed run; the same after an unreverted failed compile that left the marker failed and a compiling commit (sampled in quick); two simultaneous invocations; '
                         'a second invocation while the first is parked before command K (sampled in quick), which must not touch the database when it finds the lock taken; '
